@@ -6,9 +6,10 @@
   `JS/Py/IR.lean`), and `JS.Py.Fn.run` (`JS/Py/Interp.lean`) gives those terms Python's meaning; the
   functions outside that first subset are regenerated as `JS.Py.Fn2` terms of a richer second subset
   (`JS/Py/IR2.lean`: `for … else`, `break`, `enumerate`, errors with a `context`, generator
-  expressions; meaning `JS.Py.Fn2.run`, `JS/Py/Interp2.lean`). 36 of the 40 keyword functions are
-  translated: 32 in the first subset (`tie_<fn>`), 4 in the second (`tie2_<fn>`: anyOf, oneOf,
-  properties_draft3, type_draft3). The theorems below say, for each of the 36 translated functions,
+  expressions, and the resolver statements of `ref`: `resolve`, `push_scope`, `try … finally: pop_scope()`;
+  meaning `JS.Py.Fn2.run`, `JS/Py/Interp2.lean`). 37 of the 40 keyword functions are
+  translated: 32 in the first subset (`tie_<fn>`), 5 in the second (`tie2_<fn>`: anyOf, oneOf,
+  properties_draft3, type_draft3, ref). The theorems below say, for each of the 37 translated functions,
   that the interpreted source and the hand-written model function (`JS/Keywords.lean`, about which every property theorem is proved) are
   the SAME generator: for every oracle environment, draft class, format checker, recursive call,
   keyword value, instance and enclosing schema. A change to the body of one of these functions that
@@ -22,11 +23,12 @@
   Helper lemmas: JS/Proofs/TieBase.lean, TieA.lean, TieB.lean, TieC.lean, TieD.lean (`type` and
   `additionalItems`, whose source uses `a[n:]`, `enumerate(x, start=n)` and the message helpers
   `types_msg` / `extras_msg` of `_utils`); Tie2J.lean (`anyOf`, `type_draft3`) and Tie2K.lean (`oneOf`,
-  `properties_draft3`) for the second subset; TieCompose.lean for the
+  `properties_draft3`) and Tie2M.lean (`ref`; the model function is `kwRef` of JS/Resolver.lean) for the
+  second subset; TieCompose.lean for the
   composition (the two evaluators are equal on shaped schemas; last section).
 
   Not translated (outside both subsets; tied by the differential correspondence only):
-  additionalProperties, multipleOf, format, ref.
+  additionalProperties, multipleOf, format.
 -/
 import JS.Proofs.TieA
 import JS.Proofs.TieB
@@ -34,6 +36,7 @@ import JS.Proofs.TieC
 import JS.Proofs.TieD
 import JS.Proofs.Tie2J
 import JS.Proofs.Tie2K
+import JS.Proofs.Tie2M
 import JS.Proofs.TieCompose
 namespace JS.Props.Tie
 open JS JS.Py JS.Generated.Source
@@ -184,6 +187,13 @@ theorem tie2_type_draft3 (env : Env) (d : Draft) (fc : Option FormatChecker) (re
     Fn2.run env (d.cfg fc) rec src2_type_draft3 v inst schema = kwTypeDraft3 (d.cfg fc) rec v inst :=
   JS.Tie.tie2_type_draft3 env d fc rec v inst schema
 
+/-- `$ref` (no hypothesis on the value: on a non-string both sides read it through `refReading`): the
+    same generator for every budget and every resolver state — the same oracle queries in the same
+    states, the scope popped on every exit -/
+theorem tie2_ref (env : Env) (d : Draft) (fc : Option FormatChecker) (rec : Rec) (v inst schema : Json) :
+    Fn2.run env (d.cfg fc) rec src2_ref v inst schema = kwRef env rec v inst :=
+  JS.Tie.tie2_ref env d fc rec v inst schema
+
 /-- the shape hypotheses are necessary: on keyword values the metaschemas forbid, the Python source
     (iterating over a string's characters, over a dict's keys) and the model (TypeError) differ -/
 theorem tie_enum_needs_shape :
@@ -323,7 +333,7 @@ example : (Py.evalSrc default ⟨fun _ _ => none⟩ (Draft.d7.cfg none) 10 exIns
   rw [evalSrc_eq_eval_reffree _ _ _ _ _ _ _ exSchema_shaped]; decide +kernel
 
 /-- non-vacuity with a reference: `properties.a` refers to `#/definitions/p` (translated `minimum`
-    and `enum` behind the untranslated `$ref`); the urllib functions are answered by a toy
+    and `enum` behind the `$ref`, itself translated); the urllib functions are answered by a toy
     environment that is good enough for `#`-references (as in C19) -/
 def exSchemaR : Json :=
   .obj [(skey "definitions", .obj [(skey "p", .obj [(skey "minimum", jnat 5), (skey "enum", .arr [jnat 1, jnat 7])])]),
@@ -341,6 +351,23 @@ def exSt : RState :=
     clock := 0, fetchLog := [] }
 
 theorem exSchemaR_shaped : Spec.shapedR .d7 exSchemaR = true := by decide +kernel
+
+/-- non-vacuity, `ref`: the interpreted source of `$ref` on `#/definitions/p` descends into the
+    two-member target (the stand-in recursive call reports one error exactly there) and leaves the
+    scope stack as it found it; on the value `[]` it raises (TypeError), on `null` with an empty base
+    `RefResolutionError` -/
+example :
+    let o := Fn2.run exEnv (Draft.d7.cfg none)
+      (fun _ t => match t with | .obj [_, _] => emit [Err.fresh "x" []] | _ => nothing) src2_ref
+      (.str (skey "#/definitions/p")) (jnat 1) (.obj []) none exSt
+    o.errs.length = 1 ∧ o.st.scopes = exSt.scopes ∧ o.st.memo.length = 1 := by
+  rw [tie2_ref]; decide +kernel
+example : (match (Fn2.run exEnv (Draft.d7.cfg none) (fun _ _ => nothing) src2_ref (.arr []) (jnat 1) (.obj []) none exSt).stop with
+    | .raised (.crash _) => true | _ => false) = true := by
+  rw [tie2_ref]; decide +kernel
+example : (match (Fn2.run exEnv (Draft.d7.cfg none) (fun _ _ => nothing) src2_ref .null (jnat 1) (.obj []) none exSt).stop with
+    | .raised .refResolution => true | _ => false) = true := by
+  rw [tie2_ref]; decide +kernel
 
 /-- the guarded run over the interpreted source is the guarded model run: two errors (`minimum`
     through the reference, `required`) -/
